@@ -20,6 +20,9 @@ type cbKey struct {
 func goTypeName(n *Node) string {
 	switch n.Kind {
 	case "string":
+		if n.W == "named" {
+			return "harness.NamedStr"
+		}
 		return "string"
 	case "int":
 		if n.W == "64" {
